@@ -8,20 +8,22 @@ import (
 
 // Stable signatures (one per root cause).
 const (
-	sigManualMoved  = "manual execution with an explicit range that does not start at the cursor moved the scheduled cursor (the following scheduled window overlaps earlier windows or skips a range)"
-	sigLabelFrac    = "output rows labelled with the sub-second start instant although the executed and recorded window starts at the whole second"
-	sigLabel        = "output rows not labelled with the start of the window they summarise"
-	sigAgg          = "output rows differ from the aggregates of the source rows inside the recorded window"
-	sigUnaccounted  = "destination holds rows that no completed execution accounts for"
-	sigMissing      = "rows of a completed execution are missing from the destination"
-	sigFailAdvanced = "failed or rejected execution advanced the window cursor"
-	sigRecord       = "successful execution is not recorded as exactly one completed execution plus one cursor advance to its window end"
-	sigChainStart   = "execution without explicit range does not start where the previous successful execution ended"
-	sigOverlap      = "successive windows overlap"
-	sigGap          = "successive windows leave a gap"
-	sigNonExec      = "cursor or execution history changed by an operation that executes nothing (dry run, update, restart)"
-	sigResume       = "first successful execution after failures does not start at the failed executions' window start"
-	sigConservation = "source rows are not summarised exactly once across successive windows"
+	sigManualMoved    = "manual execution with an explicit range that does not start at the cursor moved the scheduled cursor (the following scheduled window overlaps earlier windows or skips a range)"
+	sigLabelFrac      = "output rows labelled with the sub-second start instant although the executed and recorded window starts at the whole second"
+	sigLabel          = "output rows not labelled with the start of the window they summarise"
+	sigAgg            = "output rows differ from the aggregates of the source rows inside the recorded window"
+	sigUnaccounted    = "destination holds rows that no completed execution accounts for"
+	sigMissing        = "rows of a completed execution are missing from the destination"
+	sigFailAdvanced   = "failed or rejected execution advanced the window cursor"
+	sigRecord         = "successful execution is not recorded as exactly one completed execution plus one cursor advance to its window end"
+	sigChainStart     = "execution without explicit range does not start where the previous successful execution ended"
+	sigOverlap        = "successive windows overlap"
+	sigGap            = "successive windows leave a gap"
+	sigInverted       = "completed execution records a window whose start is after its end (the cursor moved backwards)"
+	sigOverlapEarlier = "a completed window covers instants that an earlier completed window of the chain already covered"
+	sigNonExec        = "cursor or execution history changed by an operation that executes nothing (dry run, update, restart)"
+	sigResume         = "first successful execution after failures does not start at the failed executions' window start"
+	sigConservation   = "source rows are not summarised exactly once across successive windows"
 )
 
 type finding struct {
@@ -297,6 +299,28 @@ func judge(h *history, res *histResult) histReport {
 		}
 		if x.Explicit {
 			pure = false
+		}
+		// a completed chain window runs forwards, and covers no instant an earlier
+		// completed chain window already covered (not only its direct predecessor's)
+		if x.S > x.E {
+			add(sigInverted, map[string]any{"execution": x, "previous": prevOK})
+		}
+		for j := 0; j < i; j++ {
+			w := &execs[j]
+			if w.Status != "completed" || (w.Explicit && !w.Compat) || w.S >= w.E || x.S >= x.E || (prevOK != nil && w == prevOK) {
+				continue
+			}
+			lo, hi := x.S, x.E
+			if w.S > lo {
+				lo = w.S
+			}
+			if w.E < hi {
+				hi = w.E
+			}
+			if lo < hi {
+				add(sigOverlapEarlier, map[string]any{"earlier": w, "later": x})
+				break
+			}
 		}
 		if prevOK != nil && chainLen > 0 {
 			switch {
